@@ -16,7 +16,7 @@ Z = [0.0, 5.0, 10.0, 15.0, 20.0, 25.0, 30.0]
 LAT = [0.0, 1.0, 0.0, 1.0, 2.0, 2.0, 0.0]
 LON = [0.0, 0.0, 60.0, 60.0, 61.0, 0.0, 1.0]
 
-FRONTENDS = ("pandas:range", "pandas:shift", "pandas:dtindex", "numpy:nd", "numpy:dict", "xarray:coord", "xarray:var", "netcdf", "qcconfig")
+FRONTENDS = ("pandas:range", "pandas:shift", "pandas:dtindex", "pandas:dup", "numpy:nd", "numpy:dict", "xarray:coord", "xarray:var", "netcdf", "qcconfig")
 
 PROBE_LOG = []
 
@@ -149,6 +149,8 @@ def run_frontend(fe, tab, config_dict):
             df.index = range(10, 10 + n)
         elif variant == "dtindex":
             df.index = pd.DatetimeIndex(times)
+        elif variant == "dup":
+            df.index = [i // 2 for i in range(n)]  # repeated index labels
         return list(PandasStream(df).run(cfg))
     if kind == "numpy":
         axes = {k2: cols[k] for k, k2 in (("z", "z"), ("lat", "lat"), ("lon", "lon")) if k in cols}
